@@ -415,7 +415,7 @@ int main(int argc, char** argv) {
     // the relay writes "listening" banners etc. to stdout only from start(), which is not used
     // bound the heap so that unbounded buffering inside the server ends in std::bad_alloc (caught around
     // EventLoop::run and reported) instead of exhausting the machine; 0 disables (sanitizer builds)
-    long data_mb = 24;
+    long data_mb = 160;
     if (const char* e = std::getenv("RELAY_DATA_LIMIT_MB")) data_mb = std::atol(e);
     if (data_mb > 0) { rlimit rl{static_cast<rlim_t>(data_mb) << 20, static_cast<rlim_t>(data_mb) << 20}; ::setrlimit(RLIMIT_DATA, &rl); }
     long wd_s = 120;
